@@ -13,7 +13,7 @@
 import itertools
 import z3
 
-MAX_CAND = 14
+MAX_CAND = 16
 MAX_INST = 4000
 
 
@@ -87,11 +87,24 @@ def index_terms(terms, limit=MAX_CAND):
             elif k == z3.Z3_OP_STORE:
                 for ix in t.children()[1:-1]:
                     add(ix)
+            elif k == z3.Z3_OP_UNINTERPRETED and t.num_args() > 0:
+                # arguments of ghost functions (prefix sums, ranks ...)
+                for ix in t.children():
+                    add(ix)
             for c in t.children():
                 walk(c, visited)
     vis = set()
     for t in terms:
         walk(t, vis)
+    # integer constants (program variables) occurring inside index terms
+    for t in list(found):
+        stack = [t]
+        while stack:
+            x = stack.pop()
+            if z3.is_const(x) and x.decl().kind() == z3.Z3_OP_UNINTERPRETED:
+                add(x)
+            elif z3.is_app(x):
+                stack.extend(x.children())
     # smaller terms first (constants, i, j, i-1 ...)
     found.sort(key=lambda t: len(t.sexpr()))
     return found[:limit]
@@ -123,7 +136,10 @@ def ground_version(hyps, goal, skolems, extra_cands=()):
         return None
     # candidate instances: skolem constants, then the index terms of the goal,
     # then those of the ground hypotheses (most relevant first)
-    cands = list(skolems) + list(extra_cands) + index_terms([goal]) + index_terms(ground, 6)
+    # skolem constants and their neighbours (recursion equations are stated at k / k+1)
+    sk_int = [c for c in skolems if z3.is_int(c)]
+    cands = list(sk_int) + list(extra_cands) + index_terms([goal]) \
+        + [c + 1 for c in sk_int] + [c - 1 for c in sk_int] + index_terms(ground, 6)
     seen, cs = set(), []
     for c in cands:
         if c.get_id() not in seen:
